@@ -639,7 +639,7 @@ class Send (BlockingOperation):
       # Just try again?
       l = 0
 
-    if l == 0:
+    if l == 0 and data:
       # Select and try again later
       self._scheduler._selectHub.registerSelect(task, None, [self._fd],
                                                 [self._fd],
